@@ -155,8 +155,23 @@ func init() {
 		Filter: func(id string) bool { return hasPrefix(id, "rt-") || hasPrefix(id, "no-panic") || hasPrefix(id, "unwind") },
 	}
 	checkDefs["C09"] = &CheckDef{
-		Property: "C09", Jobs: func(t string) []*Job { return frameJobsFor(t, 1) }, Bounds: frameBounds, Outside: frameOutside, Assumptions: frameAssumptions,
-		Filter: func(id string) bool { return hasPrefix(id, "spec-") || id == "rt-writer-no-error" || id == "rt-options-accepted" },
+		Property: "C09",
+		Jobs: func(t string) []*Job {
+			// frames emitted by a Writer with a history (Reset with or without Close, Flush, rejected
+			// Apply ...): every sequence of 3 (thorough 4) calls, judged by the same reference parser
+			L := 3
+			if t == "thorough" {
+				L = 4
+			}
+			return append(frameJobsFor(t, 1), fmk("H_life_w", P("L", L, "bc", 0)), fmk("H_life_w", P("L", L, "bc", 1)))
+		},
+		Bounds: func(t string) []string {
+			return append(frameBounds(t), "frames emitted after a history: every sequence of 3 (thorough 4) calls of {Apply, Write(2 symbolic bytes), ReadFrom(1 byte), Flush, Close, Reset(new sink), Reset(same sink)}; whenever Close succeeds the bytes emitted since the last Reset are one well-formed frame whose content is exactly what was written since that Reset")
+		},
+		Outside: frameOutside, Assumptions: frameAssumptions,
+		Filter: func(id string) bool {
+			return hasPrefix(id, "spec-") || id == "rt-writer-no-error" || id == "rt-options-accepted" || id == "w-close-one-frame" || id == "w-close-exactly-once-in-order" || id == "w-close-options-persist"
+		},
 	}
 	_ = fmt.Sprint
 }
